@@ -87,6 +87,7 @@ func runC03(c *core.Ctx) {
 	c.RuleDoc("R03.11", "the generic Sub view never removes its own root")
 	c.RuleDoc("R03.10", "the generic Sub view joins base and name with path.Join, so every entry its root lists can be Stat'ed and opened (= R08.10)")
 	c.RuleDoc("R03.9", "the mount file system does not move an ancestor of a mount point")
+	c.RuleDoc("R03.13", "Rename deletes no record but the source's")
 	c.RuleDoc("R03.8", "directory rename: destination record first, children next, source record last")
 	c.RuleDoc("R03.5", "a record is stored under a path only where that path was found absent or not a directory")
 	for _, p := range c.Progs {
@@ -122,6 +123,7 @@ func runC03(c *core.Ctx) {
 	c.Floor("R03.10", 2)
 	c.Floor("R03.11", 2)
 	c.Floor("R03.12", 1)
+	c.Floor("R03.13", 1)
 }
 
 // pathDirOf: v is path.Dir(x); returns x.
@@ -796,6 +798,26 @@ func r03RenameOrder(c *core.Ctx, p *load.Program, sh *kvShape) {
 			}
 		},
 	})
+	// R03.13: the only record Rename deletes is the one at the source name
+	var strayDelete ssa.Instruction
+	deletes := 0
+	ssax.Instrs(fn, func(ins ssa.Instruction) {
+		cl, ok := ins.(*ssa.Call)
+		if !ok {
+			return
+		}
+		if pi, isSet := sh.setFns[ssax.StaticCallee(cl)]; isSet && ssax.StaticCallee(cl) != nil && ssax.IsNilConst(cl.Call.Args[pi+1]) {
+			deletes++
+			if cl.Call.Args[pi] != oldP && strayDelete == nil {
+				strayDelete = ins
+			}
+		}
+	})
+	if strayDelete != nil {
+		c.Bad("R03.13", fname(fn)+"|deletes-only-the-source", p.Pos(strayDelete.Pos()), fmt.Sprintf("%s deletes the record of a name other than the source it was asked to move: removing the destination directory's record (an 'undo' after a child failed to move) leaves the children already moved there as entries below a directory that does not exist, reachable by Stat but listed nowhere", fname(fn)))
+	} else {
+		c.OK("R03.13", fname(fn)+"|deletes-only-the-source", p.Pos(fn.Pos()), fmt.Sprintf("%d deletion(s), each of the source name", deletes))
+	}
 	key := fname(fn) + "|children-between-dest-and-source"
 	switch {
 	case !complete:
